@@ -1,18 +1,152 @@
 (* Props/C05.v — pinned statements for property C05 (every emitted document is
-   well-formed and decodes to the value it came from). *)
+   well-formed and decodes to the value it came from).  Statements closed by [exact lemma]
+   (or a one-line instantiation), non-vacuity Examples, Print Assumptions. *)
 From RJ Require Import Base.Outcome Base.F64 Model.Token Model.JsonEsc Model.JsonDec Model.Manifest
-  Proofs.JsonEsc_proofs Gen.EscTable.
+  Proofs.JsonEsc_proofs Proofs.Manifest_proofs Gen.EscTable.
 Local Open Scope N_scope.
 
 (* T: the match arms found in the current source are the hand model, on every code point *)
 Theorem C05_esc_table_matches_model : forall c, table_escape esc_arms esc_default c = escape_char c.
 Proof. apply esc_table_matches_model_gen; vm_compute; reflexivity. Qed.
 
-(* the body of an escaped string is NOT always a sequence of RFC 8259 chars: U+001A is emitted raw *)
-Theorem C05_escape_valid_refuted : exists s, ~ json_chars (escape_body s).
+(* T: the key predicates found in the current source are the hand models *)
+Theorem C05_key_tables_match_model :
+  toml_plain_extra = [95; 45] /\ yaml_special_src = yaml_special
+  /\ forall c, in_ranges c yaml_plain_ranges = yaml_plain_char c.
+Proof. split; [reflexivity|split; [reflexivity|apply yaml_plain_ranges_match_gen; vm_compute; reflexivity]]. Qed.
+
+(* the body of every escaped string is a sequence of RFC 8259 chars: nothing below U+0020,
+   no bare quotation mark or backslash, every backslash starts a defined escape *)
+Theorem C05_escape_valid : forall s, json_chars (escape_body s).
+Proof. exact escape_valid. Qed.
+
+Theorem C05_escape_string_json_valid : forall s, quoted json_chars (escape_string_json s).
+Proof. exact escape_string_json_valid. Qed.
+
+(* reading the escaped string gives back exactly the code points, whatever follows *)
+Theorem C05_unescape_escape : forall s rest, lex_string (escape_string_json s ++ rest) = Some (s, rest).
+Proof. exact unescape_escape. Qed.
+
+(* the emitted document of every value with finite numbers, in every whitespace format and at
+   every starting depth, decodes to exactly that value — for any number printer/reader pair
+   that round-trips the numbers of the value and prints RFC 8259 numbers *)
+Theorem C05_manifest_parse_roundtrip :
+  forall (show : f64 -> str) (read : str -> option f64) (fmt : json_format) (v : jvalue) (d : nat),
+  (forall x, In x (nums_of v) -> read (show x) = Some x) ->
+  (forall x, In x (nums_of v) -> is_json_number (show x) = true) ->
+  ws_format fmt ->
+  decode read (manifest show fmt d v) = Ok v.
 Proof.
-  exists [26]. vm_compute. intros H. inversion H as [|c r Hp| |]; subst. vm_compute in Hp. discriminate.
+  intros show read fmt v d H1 H2 WF.
+  apply (manifest_parse_roundtrip (fun x => In x (nums_of v)) show read H1 H2 fmt v d WF).
+  apply Forall_forall. auto.
 Qed.
 
+(* the same with the hypotheses on the printer stated once for all genuine finite doubles *)
+Theorem C05_manifest_parse_roundtrip_finite :
+  forall (show : f64 -> str) (read : str -> option f64),
+  (forall x, num_ok x -> read (show x) = Some x) ->
+  (forall x, num_ok x -> is_json_number (show x) = true) ->
+  forall fmt v d, ws_format fmt -> finite_nums v -> decode read (manifest show fmt d v) = Ok v.
+Proof. intros show read H1 H2 fmt v d. exact (manifest_parse_roundtrip num_ok show read H1 H2 fmt v d). Qed.
+
+(* the command-line document (multi-line format + trailing newline) *)
+Theorem C05_cli_default_roundtrip :
+  forall (show : f64 -> str) (read : str -> option f64) (v : jvalue),
+  (forall x, In x (nums_of v) -> read (show x) = Some x) ->
+  (forall x, In x (nums_of v) -> is_json_number (show x) = true) ->
+  decode read (cli_default show v) = Ok v.
+Proof.
+  intros show read v H1 H2.
+  apply (cli_default_roundtrip (fun x => In x (nums_of v)) show read H1 H2 v ws_format_manifest).
+  apply Forall_forall. auto.
+Qed.
+
+(* every whitespace format erases to the minified text *)
+Theorem C05_ws_erasure :
+  forall (show : f64 -> str) (fmt : json_format) (v : jvalue) (d d' : nat),
+  (forall x, In x (nums_of v) -> is_json_number (show x) = true) ->
+  ws_format fmt ->
+  erase_ws (manifest show fmt d v) = manifest show fmt_minified d' v.
+Proof.
+  intros show fmt v d d' H WF.
+  apply (ws_erasure (fun x => In x (nums_of v)) show H fmt WF v d d'). apply Forall_forall. auto.
+Qed.
+
+(* the formats the implementation constructs itself are whitespace formats *)
+Theorem C05_builtin_formats_ws :
+  ws_format fmt_to_string /\ ws_format fmt_manifest /\ ws_format fmt_std_json /\ ws_format fmt_minified.
+Proof. exact builtin_formats_ws. Qed.
+
+(* the shared escaper in its other roles *)
+Theorem C05_toml_basic_string_ok : forall s, quoted toml_basic_chars (escape_string_toml s).
+Proof. exact toml_basic_string_ok. Qed.
+
+Theorem C05_python_string_ok : forall s, quoted python_chars (escape_string_python s).
+Proof. exact python_string_ok. Qed.
+
+Theorem C05_safe_toml_plain_sound : forall s, is_safe_toml_plain s = true -> toml_bare_key s.
+Proof. exact safe_toml_plain_sound. Qed.
+
+Theorem C05_escape_key_toml_ok : forall s,
+  toml_bare_key (escape_key_toml s) \/ quoted toml_basic_chars (escape_key_toml s).
+Proof. exact escape_key_toml_ok. Qed.
+
+(* ---- non-vacuity ---- *)
+(* a printer/reader pair given by a table, a value with nesting, empty containers, keys and
+   strings that need escapes (U+001A, quote, backslash, U+007F) and non-integer doubles:
+   the hypotheses of the round-trip theorem hold and the decoder really runs to the value *)
+Definition ex_one : f64 := f_of_bits 4607182418800017408.        (* 1.0 *)
+Definition ex_tenth : f64 := f_of_bits 4591870180066957722.      (* 0.1 *)
+Definition ex_nzero : f64 := f_of_bits 9223372036854775808.      (* -0.0 *)
+Definition ex_show (x : f64) : str :=
+  if f_to_bits x =? 4607182418800017408 then [49]
+  else if f_to_bits x =? 4591870180066957722 then [48; 46; 49]
+  else [45; 48].
+Definition ex_read (s : str) : option f64 :=
+  if str_eqb s [49] then Some ex_one else if str_eqb s [48; 46; 49] then Some ex_tenth
+  else if str_eqb s [45; 48] then Some ex_nzero else None.
+Definition ex_value : jvalue :=
+  JObj [([34; 26], JArr [JNum ex_one; JNum ex_tenth; JNum ex_nzero; JArr []; JObj []]);
+        ([], JStr [92; 127; 233; 128512; 10]);
+        ([107], JObj [([97], JNull); ([98], JBool true)])].
+
+Example C05_nonvacuous_hyps :
+  (forall x, In x (nums_of ex_value) -> ex_read (ex_show x) = Some x)
+  /\ (forall x, In x (nums_of ex_value) -> is_json_number (ex_show x) = true)
+  /\ finite_nums ex_value
+  /\ ws_format (fmt_std_ex [9] [13; 10] [32; 58; 10]).
+Proof.
+  split; [|split; [|split]].
+  - intros x H. vm_compute in H. repeat (destruct H as [<-|H]; [vm_compute; reflexivity|]). contradiction.
+  - intros x H. vm_compute in H. repeat (destruct H as [<-|H]; [vm_compute; reflexivity|]). contradiction.
+  - unfold finite_nums. repeat constructor.
+  - constructor; cbn; try reflexivity; try exact I.
+    + exists [32], [10]. repeat split.
+    + exists [], []. repeat split.
+Qed.
+
+Example C05_nonvacuous_runs :
+  decode ex_read (manifest ex_show (fmt_std_ex [9] [13; 10] [32; 58; 10]) 0 ex_value) = Ok ex_value
+  /\ decode ex_read (cli_default ex_show ex_value) = Ok ex_value
+  /\ erase_ws (manifest ex_show fmt_manifest 0 ex_value) = manifest ex_show fmt_minified 0 ex_value
+  /\ length (manifest ex_show fmt_manifest 0 ex_value) = 148%nat
+  /\ is_safe_toml_plain [97; 45; 95; 57] = true /\ is_safe_toml_plain [97; 46] = false.
+Proof. vm_compute. repeat split. Qed.
+
 Print Assumptions C05_esc_table_matches_model.
-Print Assumptions C05_escape_valid_refuted.
+Print Assumptions C05_key_tables_match_model.
+Print Assumptions C05_escape_valid.
+Print Assumptions C05_escape_string_json_valid.
+Print Assumptions C05_unescape_escape.
+Print Assumptions C05_manifest_parse_roundtrip.
+Print Assumptions C05_manifest_parse_roundtrip_finite.
+Print Assumptions C05_cli_default_roundtrip.
+Print Assumptions C05_ws_erasure.
+Print Assumptions C05_builtin_formats_ws.
+Print Assumptions C05_toml_basic_string_ok.
+Print Assumptions C05_python_string_ok.
+Print Assumptions C05_safe_toml_plain_sound.
+Print Assumptions C05_escape_key_toml_ok.
+Print Assumptions C05_nonvacuous_hyps.
+Print Assumptions C05_nonvacuous_runs.
